@@ -951,7 +951,7 @@ func (w *watchdog) watch(res *vlib.Result, out string) {
 		w.mu.Lock()
 		c, since := w.cur, w.since
 		w.mu.Unlock()
-		if c != nil && time.Since(since) > 20*time.Second {
+		if c != nil && time.Since(since) > 120*time.Second {
 			res.Fail(vlib.Failure{Source: "correspondence", Kind: "case-hangs", Params: map[string]interface{}{},
 				What: "the scenario did not finish: the code under test livelocks under virtual time (the model terminates on it)", Case: *c})
 			res.Write(out)
